@@ -8,6 +8,7 @@ import (
 	"go/printer"
 	"go/token"
 	"math/big"
+	"path/filepath"
 	"strings"
 )
 
@@ -281,38 +282,32 @@ func (t *trFunc) stmts(list []ast.Stmt, rest [][]ast.Stmt, env map[string]string
 		if hi-lo > 64 {
 			t.fail(s, "for loop too long to unroll")
 		}
-		var unrolled [][]ast.Stmt
-		envs := []map[string]string{}
+		// the loop body must be a single `if cond { return ... }` without side effects: the loop
+		// becomes `List.findSome?` over the literal index list, early return = `some`.
+		if len(x.Body.List) != 1 {
+			t.fail(s, "loop body (only a single `if ... { return }`)")
+		}
+		ifs, ok := x.Body.List[0].(*ast.IfStmt)
+		if !ok || ifs.Else != nil || ifs.Init != nil || len(ifs.Body.List) != 1 {
+			t.fail(s, "loop body shape")
+		}
+		if _, ok := ifs.Body.List[0].(*ast.ReturnStmt); !ok {
+			t.fail(s, "loop body must return")
+		}
+		var idx []string
 		for i := lo; i <= hi; i++ {
-			unrolled = append(unrolled, x.Body.List)
-			e2 := copyEnv(env)
-			e2[iv] = fmt.Sprintf("%d", i)
-			envs = append(envs, e2)
+			idx = append(idx, fmt.Sprintf("%d", i))
 		}
-		// the loop body may not assign outer variables (checked: only if/return allowed)
-		for _, st := range x.Body.List {
-			if _, ok := st.(*ast.IfStmt); !ok {
-				t.fail(st, "statement in unrolled loop body (only `if ... { return }`)")
-			}
-		}
-		return t.unroll(unrolled, envs, append([][]ast.Stmt{tail}, rest...), env, ind)
+		envL := copyEnv(env)
+		envL[iv] = iv
+		condS := t.expr(ifs.Cond, envL)
+		ret := t.stmts(ifs.Body.List, nil, envL, ind+"    ")
+		after := t.stmts(nil, append([][]ast.Stmt{tail}, rest...), env, ind+"  ")
+		return "match List.findSome? (fun (" + iv + " : Int) => if " + condS + " then some (" + ret + ") else none) [" + strings.Join(idx, ", ") + "] with\n" +
+			ind + "| some r => r\n" + ind + "| none =>\n" + ind + "  " + after
 	}
 	t.fail(s, "statement")
 	return ""
-}
-
-func (t *trFunc) unroll(bodies [][]ast.Stmt, envs []map[string]string, after [][]ast.Stmt, env map[string]string, ind string) string {
-	if len(bodies) == 0 {
-		return t.stmts(nil, after, env, ind)
-	}
-	// body is a list of `if cond { return }` statements with no else and no side effects
-	ifs := bodies[0][0].(*ast.IfStmt)
-	if len(bodies[0]) != 1 || ifs.Else != nil || ifs.Init != nil {
-		t.fail(ifs, "unrolled loop body shape")
-	}
-	cond := t.expr(ifs.Cond, envs[0])
-	thenT := t.stmts(ifs.Body.List, nil, envs[0], ind+"  ")
-	return "if " + cond + " then " + thenT + "\n" + ind + "else " + t.unroll(bodies[1:], envs[1:], after, env, ind)
 }
 
 func constInt(p *pkgInfo, e ast.Expr) (int64, bool) {
@@ -361,7 +356,7 @@ func translate(p *pkgInfo, recvType, name, lean string, known map[string]*trSig)
 		ret = "Option Int"
 	}
 	src := fmt.Sprintf("/-- translated from `%s.%s` (%s) -/\ndef %s %s : %s :=\n  %s\n",
-		recvType, name, fset.Position(fd.Pos()), lean, strings.Join(sigp, " "), ret, body)
+		recvType, name, filepath.Base(fset.Position(fd.Pos()).Filename), lean, strings.Join(sigp, " "), ret, body)
 	return src, &trSig{lean: lean, fields: t.fields, hasErr: t.hasErr, nargs: len(params)}
 }
 
